@@ -144,6 +144,22 @@ func runSigCase(ta *TestApp, seed uint64, idx int, rep *Report, profile string) 
 	refs := []string{randHex(64), randHex(64)}
 	links := []string{"https://example.org/doc/" + randHex(8), "ipfs://" + randHex(32), "", "x"}
 
+	// the client-side helper queries name the same storage keys that the handlers and the verification use
+	// (sha256 over the colon-joined parts, computed here independently)
+	for _, a := range addrs[:2] {
+		for _, r := range refs {
+			sk, err := k.CreateStorageKey(sdk.WrapSDKContext(ctx), &sigtypes.QueryCreateStorageKeyRequest{TargetAccAddress: a, ReferenceId: r})
+			rep.Eval("C15.helper_queries_name_the_keys_verification_uses", err == nil && sk != nil && sk.StorageKey == hashHex(a+":"+r), idx, -1,
+				fmt.Sprintf("CreateStorageKey(%s,%s) does not give sha256(address:reference)", a, r))
+		}
+	}
+	for _, r := range refs {
+		ph := randHex(16)
+		pl, err := k.CreateReferencePayloadLink(sdk.WrapSDKContext(ctx), &sigtypes.QueryCreateReferencePayloadLinkRequest{ReferenceId: r, PayloadHash: ph})
+		rep.Eval("C15.helper_queries_name_the_keys_verification_uses", err == nil && pl != nil && pl.ReferenceKey == hashHex(r) && pl.ReferenceValue == hashHex(r+":"+ph), idx, -1,
+			fmt.Sprintf("CreateReferencePayloadLink(%s,%s) does not give sha256(reference) / sha256(reference:payload hash)", r, ph))
+	}
+
 	// the harness's own view of the registry (independent of the keeper)
 	myLinks := map[string]string{}
 	type stored struct{ sig, alg, cert, ts string }
